@@ -316,6 +316,180 @@ func TestShiftCornerGrid(t *testing.T) {
 	})
 }
 
+// ---- sequences of shifts through one reused caller buffer ----
+
+type shiftSeq struct {
+	Curve  string `json:"curve"`
+	Scalar h.B    `json:"scalar"`
+	Shifts []h.B  `json:"shifts"`
+}
+
+func checkShiftSeq(c shiftSeq) (h.Info, error) {
+	cv, rc := curveOf(c.Curve)
+	info := h.Info{Class: fmt.Sprintf("%s/shifts=%d", c.Curve, len(c.Shifts)), NT: len(c.Shifts) > 1}
+	k := new(big.Int).SetBytes(c.Scalar)
+	if k.Sign() == 0 || k.Cmp(rc.N) >= 0 || len(c.Scalar) != 32 {
+		return info, fmt.Errorf("PRECONDITION: scalar out of range")
+	}
+	priv, err := cv.NewPrivateKey(c.Scalar)
+	if err != nil {
+		return info, fmt.Errorf("NewPrivateKey(%x): %v", []byte(c.Scalar), err)
+	}
+	pub := priv.Public()
+	buf := make([]byte, 32) // the caller's one buffer, refilled for every call
+	run := func(key slip10.Key) ([]res, error) {
+		var out []res
+		for _, sh := range c.Shifts {
+			if len(sh) != 32 {
+				return nil, fmt.Errorf("PRECONDITION: shift length")
+			}
+			copy(buf, sh)
+			r, err := key.Shift(buf)
+			if err != nil && !errors.Is(err, slip10.ErrInvalidKey) {
+				return nil, fmt.Errorf("Shift(%x): error other than ErrInvalidKey: %v", []byte(sh), err)
+			}
+			if err != nil {
+				out = append(out, res{nil, true})
+			} else {
+				out = append(out, res{append([]byte{}, r.Bytes()...), false})
+			}
+		}
+		return out, nil
+	}
+	pubRes, err := run(pub) // all public shifts first, then all private ones
+	if err != nil {
+		return info, err
+	}
+	privRes, err := run(priv)
+	if err != nil {
+		return info, err
+	}
+	for i, sh := range c.Shifts {
+		b := new(big.Int).SetBytes(sh)
+		sum := new(big.Int).Add(k, b)
+		sum.Mod(sum, rc.N)
+		wantInv := b.Cmp(rc.N) >= 0 || sum.Sign() == 0
+		if pubRes[i].inv != wantInv || privRes[i].inv != wantInv {
+			return info, fmt.Errorf("k=%x, shift %d of %d through one reused buffer (%x): invalid private=%v public=%v, expected %v", k, i, len(c.Shifts), []byte(sh), privRes[i].inv, pubRes[i].inv, wantInv)
+		}
+		if wantInv {
+			continue
+		}
+		want := rc.Compressed(rc.BaseMul(sum))
+		if !bytes.Equal(pubRes[i].key, want) {
+			return info, fmt.Errorf("k=%x, public Shift number %d of %d (shift %x, all passed through one caller buffer that is refilled between calls) = %x, (k+b mod n)G = %x", k, i, len(c.Shifts), []byte(sh), pubRes[i].key, want)
+		}
+		if !bytes.Equal(privRes[i].key, sum.FillBytes(make([]byte, 32))) {
+			return info, fmt.Errorf("k=%x, private Shift number %d of %d (shift %x, reused caller buffer) = %x, k+b mod n = %x", k, i, len(c.Shifts), []byte(sh), privRes[i].key, sum)
+		}
+	}
+	return info, nil
+}
+
+type res struct {
+	key []byte
+	inv bool
+}
+
+func TestShiftSequences(t *testing.T) {
+	h.Run(t, h.Sub[shiftSeq]{
+		Prop: "C08", Name: "shift-sequences", N: 500,
+		Gen: func(t *rapid.T) shiftSeq {
+			first := genShift(t)
+			c := shiftSeq{Curve: first.Curve, Scalar: first.Scalar, Shifts: []h.B{first.Shift}}
+			_, rc := curveOf(c.Curve)
+			k := new(big.Int).SetBytes(c.Scalar)
+			for i, n := 0, rapid.IntRange(1, 5).Draw(t, "n"); i < n; i++ {
+				if h.Pick(t, "sk", 1, 2) == 0 {
+					sc := shiftCorners[rapid.IntRange(0, len(shiftCorners)-1).Draw(t, "bc")]
+					c.Shifts = append(c.Shifts, sc.f(k, rc.N).FillBytes(make([]byte, 32)))
+				} else {
+					c.Shifts = append(c.Shifts, h.BytesN(t, "b", 32))
+				}
+			}
+			return c
+		},
+		Check:   checkShiftSeq,
+		Require: []string{"secp256k1/shifts=2", "nist256p1/shifts=3", "secp256k1/shifts=6"},
+		Rule:    "histories: one key, 2..6 shifts (corners and random) passed through ONE caller buffer that is refilled between calls; all public shifts first, then all private ones; every result = (k+b mod n) and its point from the affine reference; all non-trivial",
+	})
+}
+
+// ---- concurrent derivations from one shared parent ----
+
+type concCase struct {
+	Curve   string   `json:"curve"`
+	Seed    h.B      `json:"seed"`
+	Path    []uint32 `json:"path"`
+	Public  bool     `json:"public"`
+	Indices []uint32 `json:"indices"`
+	Iters   int      `json:"iters"`
+}
+
+func checkConcurrent(c concCase) (h.Info, error) {
+	cv, _ := curveOf(c.Curve)
+	info := h.Info{Class: fmt.Sprintf("%s/public=%v", c.Curve, c.Public), NT: len(c.Indices) > 1}
+	mk := func() (*slip10.ExtendedKey, error) {
+		p, err := slip10.DeriveKeyFromPath(c.Seed, cv, c.Path)
+		if err == nil && c.Public {
+			p = p.Public()
+		}
+		return p, err
+	}
+	type exp struct{ key, chain []byte }
+	want := make([]exp, len(c.Indices))
+	for i, idx := range c.Indices { // sequential expectations, each from its own parent object
+		if idx >= slip10.Hardened {
+			return info, fmt.Errorf("PRECONDITION: hardened index")
+		}
+		p, err := mk()
+		if err != nil {
+			return info, fmt.Errorf("parent derivation: %v", err)
+		}
+		k, err := p.DeriveChild(idx)
+		if err != nil {
+			return info, fmt.Errorf("DeriveChild(%d): %v", idx, err)
+		}
+		want[i] = exp{append([]byte{}, k.Public().Key.Bytes()...), append([]byte{}, k.ChainCode...)}
+	}
+	shared, err := mk()
+	if err != nil {
+		return info, err
+	}
+	err = h.Parallel(len(c.Indices), func(g int) error {
+		for it := 0; it < c.Iters; it++ {
+			k, err := shared.DeriveChild(c.Indices[g])
+			if err != nil {
+				return fmt.Errorf("goroutine %d: DeriveChild(%d): %v", g, c.Indices[g], err)
+			}
+			if got := k.Public().Key.Bytes(); !bytes.Equal(got, want[g].key) || !bytes.Equal(k.ChainCode, want[g].chain) {
+				return fmt.Errorf("goroutine %d of %d deriving non-hardened children of one shared %s parent (public=%v), iteration %d: child %d has public key %x chain code %x; derived alone it has %x / %x", g, len(c.Indices), c.Curve, c.Public, it, c.Indices[g], got, k.ChainCode, want[g].key, want[g].chain)
+			}
+		}
+		return nil
+	})
+	return info, err
+}
+
+func TestConcurrent(t *testing.T) {
+	h.Run(t, h.Sub[concCase]{
+		Prop: "C08", Name: "concurrent-children", N: 40,
+		Gen: func(t *rapid.T) concCase {
+			c := concCase{Curve: h.OneOf(t, "curve", "secp256k1", "nist256p1"), Seed: h.Bytes(t, "seed", 16, 64), Public: rapid.Bool().Draw(t, "pub"), Iters: 12}
+			for i := rapid.IntRange(0, 2).Draw(t, "plen"); i > 0; i-- {
+				c.Path = append(c.Path, rapid.Uint32().Draw(t, "pi"))
+			}
+			for i := h.OneOf(t, "g", 2, 4, 8); i > 0; i-- {
+				c.Indices = append(c.Indices, rapid.Uint32Range(0, 1<<31-1).Draw(t, "idx"))
+			}
+			return c
+		},
+		Check:   checkConcurrent,
+		Require: []string{"secp256k1/public=true", "secp256k1/public=false", "nist256p1/public=true", "nist256p1/public=false"},
+		Rule:    "schedules: 2..8 goroutines released together, each repeatedly deriving its own non-hardened child from one shared extended key (private or public); each result = the same child derived alone from its own parent object; all non-trivial",
+	})
+}
+
 // FuzzGenShift: the structured generator driven by Go's coverage-guided fuzzer (thorough tier).
 func FuzzGenShift(f *testing.F) {
 	h.FuzzSub(f, h.Sub[shiftCase]{Prop: "C08", Name: "shift-commutes", Gen: genShift, Check: checkShift})
